@@ -412,7 +412,38 @@ Proof.
   unfold cfg_follow_alias. cbn [cfg_alias_one_level]. destruct (kc_alias k =? 0); cbn [negb bind].
   - destruct (kc_token k =? 0) eqn:T; [discriminate|]. intro H. inversion H; subst. split; [reflexivity|]. apply Z.eqb_neq. exact T.
   - destruct (cfg_find c (kc_alias k)) as [t|]; cbn [bind]; [|discriminate].
+    unfold cfg_alias_chain_refused. destruct (kc_alias t =? 0); cbn [negb bind]; [|discriminate].
     destruct (kc_token t =? 0) eqn:T; [discriminate|]. intro H. inversion H; subst. split; [reflexivity|]. apply Z.eqb_neq. exact T.
+Qed.
+
+Lemma cfg_find_name c n k : cfg_find c n = Some k -> kc_name k = n /\ cfg_find c (kc_name k) = Some k.
+Proof.
+  induction c as [|x c IH]; cbn; [discriminate|]. destruct (kc_name x =? n) eqn:E.
+  - intro H. injection H as <-. apply Z.eqb_eq in E. split; [exact E|]. rewrite Z.eqb_refl. reflexivity.
+  - intro H. destruct (IH H) as [H1 H2]. split; [exact H1|]. rewrite H1, E. exact H.
+Qed.
+
+(* resolution is idempotent: what GetKey returns is a complete section found under its own name; callers that look the
+   returned key up again by its name get the same section *)
+Lemma cfg_get_key_idempotent c n kc : cfg_get_key c n = Ok kc -> cfg_get_key c (kc_name kc) = Ok kc.
+Proof.
+  intro H.
+  assert (P : cfg_find c (kc_name kc) = Some kc /\ kc_alias kc = 0 /\ (kc_token kc =? 0) = false).
+  { revert H. unfold cfg_get_key. destruct (cfg_find c n) as [k|] eqn:F; cbn [cfg_missing negb]; [|discriminate].
+    unfold cfg_follow_alias. cbn [cfg_alias_one_level]. destruct (kc_alias k =? 0) eqn:A; cbn [negb bind].
+    - destruct (kc_token k =? 0) eqn:T; [discriminate|]. intro H. injection H as <-. apply cfg_find_name in F as [_ F]. apply Z.eqb_eq in A. auto.
+    - destruct (cfg_find c (kc_alias k)) as [t|] eqn:G; cbn [bind]; [|discriminate].
+      unfold cfg_alias_chain_refused. destruct (kc_alias t =? 0) eqn:B; cbn [negb bind]; [|discriminate].
+      destruct (kc_token t =? 0) eqn:T; [discriminate|]. intro H. injection H as <-. apply cfg_find_name in G as [_ G]. apply Z.eqb_eq in B. auto. }
+  destruct P as (F & A & T). unfold cfg_get_key. rewrite F. cbn [cfg_missing negb]. unfold cfg_follow_alias. rewrite A. cbn [Z.eqb negb bind]. rewrite T. reflexivity.
+Qed.
+
+(* (relic fix 1867fd2) an alias whose target is itself an alias is a configuration error, never a silent second hop *)
+Lemma cfg_alias_chain_is_error c n k t :
+  cfg_find c n = Some k -> kc_alias k <> 0 -> cfg_find c (kc_alias k) = Some t -> kc_alias t <> 0 -> cfg_get_key c n = Err E_ALIAS.
+Proof.
+  intros Hk Ha Ht Hb. unfold cfg_get_key. rewrite Hk. cbn [cfg_missing negb]. unfold cfg_follow_alias, cfg_alias_chain_refused. cbn [cfg_alias_one_level].
+  apply Z.eqb_neq in Ha, Hb. rewrite Ha, Ht, Hb. reflexivity.
 Qed.
 
 Lemma token_get_key_right c kf n k :
